@@ -97,14 +97,22 @@ def run(sid, checks):
         checks = [c["property_id"] for c in json.load(open(os.path.join(VERIF, "MANIFEST.json")))["checks"]]
     rc, out = sh("git -C /repo status --porcelain")
     assert out.strip() == "", "/repo is not clean: " + out
+    head = sh("git -C /repo rev-parse --short HEAD")[1].strip()
     rc, out = sh(f"git -C /repo apply --whitespace=nowarn {dst}/patch.diff")
-    assert rc == 0, out
+    if rc != 0:
+        # the change was written against an earlier /repo HEAD and the lines it edits have been repaired since
+        meta.setdefault("checks", {})
+        meta["does_not_apply_at"] = head
+        json.dump(meta, open(os.path.join(dst, "meta.json"), "w"), indent=1)
+        print(f"{sid}: patch does not apply at {head}: {out.strip()[:200]}")
+        return
+    meta.pop("does_not_apply_at", None)
     try:
         for c in checks:
             t0 = time.time()
             rc, out = sh(f"/venv/bin/python -m mc check {c} --tier quick", cwd=VERIF)
             sigs = [l.strip() for l in out.splitlines() if l.strip().startswith("sig=")]
-            meta["checks"][c] = {"exit": rc, "signatures": [s[:400] for s in sigs[:6]], "wall_s": round(time.time() - t0, 1), "ran_at_repo_head": meta["confirmation"]["repo_head"]}
+            meta["checks"][c] = {"exit": rc, "signatures": [s[:400] for s in sigs[:6]], "wall_s": round(time.time() - t0, 1), "ran_at_repo_head": head}
             print(f"{sid} {c}: exit={rc} " + " | ".join(s[:200] for s in sigs[:3]))
     finally:
         sh("git -C /repo checkout -- .")
